@@ -257,6 +257,7 @@ def main() -> None:
         "budget": {t: ENGINE.budget(t) for t in ("quick", "thorough")},
         "timeout": {t: ENGINE.timeout(t) for t in ("quick", "thorough")},
         "deadline": {t: ENGINE.deadline(t) for t in ("quick", "thorough")},
+        "extra": ENGINE.extra_meta(),
     }
     _reply({"ready": True, "cpu": _cpu, "threads": _thread_count(), "src": SRC,
             "hashseed": os.environ.get("PYTHONHASHSEED"), "meta": meta})
